@@ -289,6 +289,10 @@ def zErase (z : List (Str × Route)) (k : Str) : List (Str × Route) := z.filter
 
 def zHas (z : List (Str × Route)) (k : Str) : Bool := z.any (fun e => e.1 = k)
 
+def zGet : List (Str × Route) → Str → Option Route
+  | [], _ => none
+  | (k', v) :: t, k => if k' = k then some v else zGet t k
+
 /-- `Handle(pattern, handler)`; `none` = a nil Handler interface -/
 def Router.handle (r : Router) (pattern : Str) (h : Option Handler) : Except Fail Router :=
   let pattern := filterPath pattern
